@@ -84,6 +84,23 @@ def paste_back(ctx, rep, base, tokens):
             S = tr.pop('_S')
             last = tr['events'][-1]['obs']
             outs.append((json.dumps(last.get('_raw')), last.get('raised', False), json.dumps(S.fsel()), json.dumps(S.bsel()), S.sel()))
+        # the same text given as the value of -f / -b when the tool is started
+        if cmd in ('filter ', 'breakpoint ') and not outs[1][1]:
+            opt = 'ftext' if cmd == 'filter ' else 'btext'
+            sel = []
+            for text in (tok, SGR.sub('', tok)):
+                tr = copy.deepcopy(base)
+                tr['init'] = dict(tr['init'], **{opt: text})
+                try:
+                    e1.run(tr, color=False, keep_session=True)
+                    S = tr.pop('_S')
+                    sel.append((json.dumps(S.fsel()), json.dumps(S.bsel()), tr.get('escaped', '')[-200:]))
+                except RuntimeError as e:
+                    sel.append(('rejected', str(e)[-200:]))
+            if sel[0] != sel[1] and sel[1][0] != 'rejected':
+                rep.violation('option-paste-differs:' + opt, 'given as the value of %s with colour codes, %r is not understood as without them: %r vs %r'
+                              % ('-f' if opt == 'ftext' else '-b', tok, sel[0][-1][:200] if sel[0][0] == 'rejected' else 'accepted', 'accepted'),
+                              {'kind': 'paste', 'cmd': cmd, 'token': tok})
         rep.case('paste:' + cmd + tok)
         if outs[0] != outs[1]:
             rep.violation('paste-back-differs:' + (cmd.strip() or 'bare'), 'typed with colour codes, %r is not understood as without them: %s vs %s'
